@@ -44,7 +44,7 @@ PROPS = {
                 oracles=["O6"], contract=False, title="counts and identity exact"),
     "C07": dict(streams=["noadopt"], fields=["D", "R", "roots", "wroots", "vals", "raws", "C", "W", "heapcounts"], oracles=[],
                 contract=False, title="without adoptions identical to std", std=True),
-    "C08": dict(streams=["corpus", "contract", "raw", "exh2", "api"], fields=["heap"], oracles=["O8"], contract=False,
+    "C08": dict(streams=["corpus", "contract", "raw", "exh2", "exh2e", "api"], fields=["heap"], oracles=["O8"], contract=False,
                 title="bookkeeping exact, symmetric, no dead names"),
     "C09": dict(streams=["contract_full", "exh2"], fields=["D", "heapcounts"], oracles=[], contract=True,
                 title="destroyed sets independent of layout", layout=True),
@@ -54,7 +54,7 @@ PROPS = {
                 contract=True, title="panicking destructor", panicapi=True),
     "C12": dict(streams=["api", "raw", "shallow", "corpus"], fields=["heap", "R", "E", "D", "F", "vals", "roots", "raws", "C", "W"],
                 oracles=["O1", "O2", "O4", "O8"], contract=False, title="consuming APIs on adopted objects"),
-    "C13": dict(streams=["elide", "corpus"], fields=["D", "E", "heap", "roots"], oracles=["O1", "O2"], contract=False,
+    "C13": dict(streams=["elide", "exh2e", "corpus"], fields=["D", "E", "heap", "roots"], oracles=["O1", "O2"], contract=False,
                 title="elided unadopt", known="D4", o1_free=True),
     "C14": dict(streams=["contract", "raw", "noadopt", "api"], fields=["T0"], oracles=["O14"], contract=False,
                 title="pay-as-you-go"),
@@ -127,6 +127,8 @@ def make_stream(name, seed, tier):
     if name == "exh2":
         cs = list(gen.exhaustive(2, 2)) + list(gen.exhaustive(2, 2, with_unrecorded=True)) + list(gen.exhaustive(2, 1, with_same=True))
         return cs
+    if name == "exh2e":
+        return list(gen.exhaustive_elide(2, 2))
     if name == "exh3s":
         rng = random.Random(seed)
         if tier == "quick":
@@ -492,6 +494,23 @@ def bigring_check(tier):
             out.append(f"{shape} n={n}: {line}")
             if rc != 0 or "ok" not in line:
                 bad.append(f"{shape} n={n}: rc={rc} {line}")
+    # wide frontier (hub and spokes): the counters cannot see super-linear work done on the
+    # work list itself, so elapsed time is compared with a ring of the same number of adoptions
+    import re as _re
+    hn = 30000 if tier == "quick" else 60000
+    times = {}
+    for shape, n in (("hub", hn), ("hub", 4 * hn)):
+        rc, o = sh([engine.HEXEC, "bigring", shape, str(n)], timeout=1800)
+        line = o.strip().split("\n")[-1] if o.strip() else ""
+        out.append(f"{shape} n={n}: {line}")
+        mm = _re.search(r"secs=([0-9.]+)", line)
+        times[n] = float(mm.group(1)) if mm else None
+        if rc != 0 or "ok" not in line:
+            bad.append(f"{shape} n={n}: rc={rc} {line}")
+    if times.get(hn) is not None and times.get(4 * hn) is not None:
+        # scaling test: 4x the objects and adoptions may cost about 4x the time; quadratic work costs 16x
+        if times[4 * hn] > 8 * times[hn] + 0.3:
+            bad.append(f"hub of {4*hn} spokes took {times[4*hn]:.2f}s but a hub of {hn} spokes {times[hn]:.2f}s: super-linear")
     rc, o = sh([engine.HEXEC, "bigring", "clique", "300" if tier == "quick" else "600"], timeout=1800)
     line = o.strip().split("\n")[-1] if o.strip() else ""
     out.append(f"clique: {line}")
